@@ -372,6 +372,13 @@ func NewWith(drivers []evt.Driver, p *Program, viol func(sig, desc string), obsF
 	if c.PanicHandler && !c.PHBySetter {
 		opts = append(opts, ebu.WithPanicHandler(e.panicHandler))
 	}
+	if c.PanicHandler && c.PHBySetter && len(p.Ops)%2 == 0 {
+		// a handler given by option that SetPanicHandler replaces before the first publish: it must
+		// never hear of a panic
+		opts = append(opts, ebu.WithPanicHandler(func(_ any, _ reflect.Type, v any) {
+			e.fail("panic:replaced-handler-called", "the panic handler given by WithPanicHandler was called (panic value %v) although SetPanicHandler had replaced it before the first publish", v)
+		}))
+	}
 	if !c.HooksSetter {
 		if c.BeforeLegacy {
 			opts = append(opts, ebu.WithBeforePublish(func(t reflect.Type, ev any) { e.hook("hook.before", nil, t, ev) }))
